@@ -26,7 +26,7 @@ from mc.drivers import pipeline as P
 
 ID = "C08"
 LEVEL = "exploration"
-BUDGET = {"quick": 300, "thorough": 900}
+BUDGET = {"quick": 300, "thorough": 3600}
 CHUNK = 6
 RULE = (
     "level 0: pipeline [matching cost, wta, cross-check] x every matching-cost configuration (4 measures x windows "
